@@ -104,7 +104,11 @@ def observe_table(s):
 def gen_cases(ctx):
     rng = rng_for(ctx, 12)
     n_seq = 70 if ctx.tier == "quick" else 900
-    return load_corpus("C12") + [dict(seed=int(rng.integers(0, 2**31)), fits=bool(k % 7 == 6)) for k in range(n_seq)]
+    # the same file name read, rewritten with its convertible columns in their other units, and read again (nothing may be remembered per file name)
+    scripted = [dict(seed=int(rng.integers(0, 2**31)), fits=False, script=sc) for sc in
+                (["write", "slice", "write_ow_units", "slice", "idx"], ["write", "idx", "read", "write_ow_units", "idx", "slice", "random"],
+                 ["write", "random", "write_ow_units", "random", "write_ow_units", "slice"])]
+    return load_corpus("C12") + scripted + [dict(seed=int(rng.integers(0, 2**31)), fits=bool(k % 7 == 6)) for k in range(n_seq)]
 
 
 def incompatible_variant(rng, base):
@@ -154,15 +158,25 @@ def run_sequence(ctx, case):
     problems, ops, summary = [], [], []
     model = None  # python mirror of what should be in the file: (cols, units, meta, rows)
     base = mk_spec(rng)
-    n_ops = 3 if case["fits"] else int(rng.integers(3, 9))
+    n_ops = 3 if case["fits"] else len(case["script"]) if case.get("script") else int(rng.integers(3, 9))
     for k in range(n_ops):
         if case["fits"]:
             kind = ["write_ow", "read", "write_ow"][k]
+        elif case.get("script"):
+            kind = case["script"][k]
         else:
             kind = "write" if model is None and k == 0 else ["write", "write_ow", "append", "append_bad", "read", "slice", "idx", "random"][
                 int(rng.choice(8, p=[.06, .1, .2, .2, .12, .12, .12, .08]))]
+        if kind == "write_ow_units" and model is not None:
+            flipped = {c: ([x for x in UNITS[c] if unit_id(x) != unit_id(model[1][c])] or [model[1][c]])[0] for c in model[0]}
+            scripted_spec = mk_spec(rng, cols=model[0], units=flipped, meta=model[2], nrows=max(4, len(model[3])))
+            kind = "write_ow"
+        else:
+            scripted_spec = None
         if kind in ("write", "write_ow", "append", "append_bad"):
-            if kind == "append_bad" and model is not None:
+            if scripted_spec is not None:
+                spec, why = scripted_spec, None
+            elif kind == "append_bad" and model is not None:
                 spec, why = incompatible_variant(rng, dict(cols=model[0], units=model[1], meta=model[2]))
                 if spec is None:
                     continue
@@ -230,8 +244,8 @@ def run_sequence(ctx, case):
             cols = [str(c) for c in rng.permutation(model[0])[:ncol]]
             units = {}
             for c in cols:
-                if rng.random() < 0.5:
-                    units[c] = u.Unit(UNITS[c][int(rng.integers(0, len(UNITS[c])))])
+                if rng.random() < 0.5 or case.get("script"):
+                    units[c] = u.Unit(UNITS[c][0] if case.get("script") else UNITS[c][int(rng.integers(0, len(UNITS[c])))])
             factors = [float(u.Unit(model[1][c]).to(units[c])) if c in units else 1.0 for c in cols]
             cidx = [model[0].index(c) for c in cols]
             recorded = {}
